@@ -182,6 +182,7 @@ def run(prog, R):
     R.premises(prog, "C15.3-unit-table-premise", ["C10:C10.1-"], "a number directly followed by a unit is split into number + identifier by the same unit table that validation and the AST accessor use")
     import scanners
     scanners.exponent_markers(prog, R, "C15.3-exponent-markers")
+    scanners.leading_zero_check(prog, R, "C15.3-leading-zero-continues")
     scanners.whitespace_check(prog, R, "C15.5-whitespace-class")
     # word-like lexer directives (`OPENQASM`, `pragma`, `#pragma`) are recognised only when whitespace follows the
     # word: otherwise an identifier that merely starts with it (`pragma2`, `OPENQASMx`) would change its token class
